@@ -6,11 +6,11 @@ from .c01 import minimise, NAMINGS, scope_iter
 FORMS = ['obj', 'text', 'str', 'ctls', 'shared']
 
 
-def call(K, g, naming, how, form, kripke=None):
+def call(K, g, naming, how, form, kripke=None, atoms=None):
     f = ('A', g)
     if form == 'ctls':
-        return mc.call('LTL', K, f, naming, how, form='obj', objlang='CTLS', kripke=kripke)
-    return mc.call('LTL', K, f, naming, how, form=form, kripke=kripke)
+        return mc.call('LTL', K, f, naming, how, form='obj', objlang='CTLS', kripke=kripke, atoms=atoms)
+    return mc.call('LTL', K, f, naming, how, form=form, kripke=kripke, atoms=atoms)
 
 
 def expected(M, g, certify=True, spot=0):
@@ -41,7 +41,7 @@ def check_ltl(inp):
     g = fm.from_json(inp['g'])
     M = ref.Model(K)
     exp = expected(M, g, certify=True, spot=inp.get('spot', 4))
-    out = call(K, g, inp.get('naming', 'int'), inp.get('how', 0), inp.get('form', 'obj'))
+    out = call(K, g, inp.get('naming', 'int'), inp.get('how', 0), inp.get('form', 'obj'), atoms=inp.get('atoms'))
     if out == ('set', exp):
         return None
     note = ''
@@ -154,7 +154,7 @@ def enum_shard(st, shard, nshards, payload):
     idx = -1
     for (n, k, stride) in payload['scopes']:
         paths = path_scope(k)
-        objs = [fm.to_lib(('A', g), L, share={} if gi_ % 2 else None) for gi_, g in enumerate(paths)]
+        objs = {}
         cls = [classes_of(g) for g in paths]
         for j, K in enumerate(scope_iter(n, stride, nshards)):
             # every stride-th structure of THIS scope (S(4)+ are already strided by the decoder),
@@ -169,14 +169,19 @@ def enum_shard(st, shard, nshards, payload):
             M = ref.Model(K)
             naming = NAMINGS[idx % len(NAMINGS)]
             how = idx % 6
-            kripke = km.to_lib(K, naming, how)
+            ai = (idx // 2) % len(fm.ATOM_MAPS)
+            amap = fm.atom_map(ai)
+            kripke = km.to_lib(km.rename_labels(K, amap), naming, how)
             back = dict((km.name_of(naming)(i), i) for i in range(n))
             for gi, g in enumerate(paths):
                 if (j * 7 + gi) % nshards != shard:
                     continue
                 exp = expected(M, g, certify=(gi % 5 == idx % 5), spot=0)
                 try:
-                    res = L.modelcheck(kripke, objs[gi])
+                    ok_ = (gi, ai if amap else None)
+                    if ok_ not in objs:
+                        objs[ok_] = fm.to_lib(fm.rename_atoms(('A', g), amap), L, share={} if gi % 2 else None)
+                    res = L.modelcheck(kripke, objs[ok_])
                     out = mc.normalise(res, back)
                 except Exception as e:
                     out = ('exc', type(e).__name__, str(e)[:200])
@@ -188,7 +193,7 @@ def enum_shard(st, shard, nshards, payload):
                         st.bump(c)
                     st.bump('states=%d' % n)
                 if out != ('set', exp):
-                    inp = {'K': K, 'g': g, 'naming': naming, 'how': how, 'form': 'shared' if gi % 2 else 'obj'}
+                    inp = {'K': K, 'g': g, 'naming': naming, 'how': how, 'form': 'shared' if gi % 2 else 'obj', 'atoms': ai}
                     fresh = check_ltl(inp)
                     if fresh is None:
                         st.add_extra('mismatch_only_with_reused_structure')
@@ -259,6 +264,7 @@ def random_shard(st, shard, nshards, payload):
         'g': fm.st_formula('ltl_path', max_depth=3, max_temporal=3),
         'naming': hs.sampled_from(NAMINGS),
         'how': hs.integers(0, 5),
+        'atoms': hs.integers(0, len(fm.ATOM_MAPS) - 1),
         'form': hs.sampled_from(FORMS),
     })
 
